@@ -69,8 +69,30 @@ std::string compare_stats(const ml::stats_t& got, const tensor2d_t& values, cons
     ml::store_stats(vals.tensor(), e.tensor());
     const double g[12] = {got.m_mean,  got.m_stdev, got.m_count, got.m_per01, got.m_per05, got.m_per10,
                           got.m_per20, got.m_per50, got.m_per80, got.m_per90, got.m_per95, got.m_per99};
+    // the standard deviation is sqrt(E[x^2] - mean^2) in the library (tensor_t::variance): for a (nearly) constant list the
+    // difference is rounding noise of size eps * mean^2, possibly negative, so the stored and the recomputed value are only
+    // defined up to sqrt(eps) * |mean| there (and either may be NaN). Reference: two-pass deviation in long double.
+    long double mean = 0, ss = 0;
+    for (tensor_size_t k = 0; k < vals.size(); ++k)
+    {
+        mean += vals(k);
+    }
+    mean /= std::max<tensor_size_t>(vals.size(), 1);
+    for (tensor_size_t k = 0; k < vals.size(); ++k)
+    {
+        ss += (vals(k) - mean) * (vals(k) - mean);
+    }
+    const double ref_stdev  = vals.size() > 1 ? static_cast<double>(std::sqrt(ss / static_cast<long double>(vals.size() - 1))) : 0.0;
+    const double stdev_slop = 1e-7 * (1.0 + std::fabs(static_cast<double>(mean)));
     for (int i = 0; i < 12; ++i)
     {
+        if (i == 1 && ref_stdev <= stdev_slop)
+        {
+            if (std::isnan(g[i]) || std::fabs(g[i]) <= 2 * stdev_slop)
+            {
+                continue;
+            }
+        }
         const bool same = (std::isnan(g[i]) && std::isnan(e(i))) || std::fabs(g[i] - e(i)) <= tol * (1.0 + std::fabs(e(i)));
         if (!same)
         {
